@@ -340,7 +340,7 @@ pub fn random_ps<R: Rng>(rng: &mut R, mark: &str) -> Vec<Tok> {
         for _try in 0..8 {
             let a = all.choose(rng).unwrap().clone();
             let prev = out.last().unwrap();
-            let bad = (prev.k == "var" && a.k == "lit" && name_start(&a.w))
+            let bad = ((prev.k == "var" || (prev.k == "bsl" && prev.w == "$x")) && a.k == "lit" && name_start(&a.w))
                 || (prev.k == "bsl" && a.k == "lit" && a.w.starts_with('!'))
                 || (prev.k == "lit" && a.k == "bsl")
                 || (prev.k == "bsl" && a.k == "bsl");
